@@ -129,7 +129,7 @@ var sep LValue = LString("\x00sep")
 
 // C06.laws — coroutine value transfer, status and error laws with symbolic payloads.
 //
-//verif:harness prop=C06,C05 tier=quick bounds="17 law templates (<= 3 coroutines, <= 6 resumes each): transfer in both directions with 0..3 values, status incl. normal/running, errors and faults inside coroutines, wrap, generators, nested resumes, dead/running resume, tail-called yield, errors crossing wrap inside resume, wrap failing inside another coroutine; payloads 2 symbolic float64"
+//verif:harness prop=C06 tier=quick bounds="17 law templates (<= 3 coroutines, <= 6 resumes each): transfer in both directions with 0..3 values, status incl. normal/running, errors and faults inside coroutines, wrap, generators, nested resumes, dead/running resume, tail-called yield, errors crossing wrap inside resume, wrap failing inside another coroutine; payloads 2 symbolic float64"
 func H_C06_laws() {
 	k := VChoice(len(c06Laws))
 	law := c06Laws[k]
